@@ -1,2 +1,806 @@
-// stub created by the lead so that the workspace always loads; replace it with the check
-fn main() {}
+//! C08 — NSEC denial of existence is sound and complete.
+//!
+//! E-ENUM over the small zone universe (DESIGN 5.1; no a<->b reduction), every zone signed by
+//! the REAL server code (`secure_zone_mut` -> `nsec_zone`), plus parent/child worlds (`z.` with a
+//! delegation `a.z.`, child zone `a.z.`) so that parent-side delegation NSECs and child NSECs mix.
+//!
+//! * Decision level (hook `hickory_net::dnssec::verif::verify_nsec`): every query (qname in and
+//!   around the zone x qtype in {A,TXT,DS,NS,CNAME}) x every claim {NXDOMAIN, NODATA, wildcard
+//!   expansion of each published wildcard RRset with its genuine RRSIG} x every soa_name variant
+//!   {apex(es), absent} x EVERY non-empty subset of the genuine NSEC records of the world.
+//!   Soundness oracle: `Secure` => the claim is TRUE in the published zone(s)
+//!   (`vref::denial::truth`, i.e. the RFC 1034/4592 reference lookup plus the RFC 6840 4.1
+//!   ancestor-delegation rule) — clause `unsound`; and `Secure` => the subset is the proof RFC 4035
+//!   5.4 / RFC 6840 4 require (`vref::denial::nsec_proves`) — clause `unentailed`. The two reference
+//!   layers are cross-checked on every case (a set that "proves" a false claim stops the run, exit 2).
+//! * Completeness (end to end): for every zone and query the real server's DO=1 response, when
+//!   it is a negative or wildcard-expanded answer that agrees with the reference (C10 deviations
+//!   are C10's business and skipped), must be accepted Secure by the real `DnssecDnsHandle`
+//!   (scripted upstream, zone key as trust anchor, virtual clock).
+//! * Binding: every Secure-but-false case found at decision level and a deterministic 1/64 slice
+//!   of all decision-level cases are rebuilt as response messages from the genuine signed records
+//!   and replayed through the real `DnssecDnsHandle`; the verdicts must agree
+//!   (`traces_validated_against_impl`).
+//! * The NSEC chain the real signer produced is compared with the chain RFC 4035 2.3 prescribes.
+
+use std::collections::{BTreeMap, BTreeSet, HashMap};
+use std::sync::atomic::{AtomicU64, Ordering};
+use std::sync::Arc;
+
+use hickory_net::dnssec::verif::verify_nsec;
+use hickory_proto::dnssec::rdata::NSEC;
+use hickory_proto::dnssec::Proof;
+use hickory_proto::op::{Message, MessageType, OpCode, Query, ResponseCode};
+use hickory_proto::rr::{Name as HName, Record, RecordType};
+use serde_json::{json, Value};
+use vcore::{fnv_str, Ctx, Local};
+use vref::denial::{self as dn, Claim, NsecRec};
+use vref::zone::{self as rz, Name, NoDataKind, Step, Zone};
+use vzone::{Built, E2e, Kind, Signing, Upstream, ZoneSpec};
+
+const QTYPES: [u16; 5] = [rz::T_A, rz::T_TXT, rz::T_DS, rz::T_NS, rz::T_CNAME];
+const BIND_SLICE: u64 = 64;
+
+// ------------------------------------------------------------------------------------------
+// a world: one zone, or a parent and a child zone
+
+struct ZoneIn {
+    built: Built,
+    rz: Zone,
+    origin: HName,
+}
+
+struct World {
+    specs: Vec<ZoneSpec>,
+    zones: Vec<ZoneIn>,
+    refs: Vec<Zone>,
+    /// all NSEC records of all zones: (zone index, owner, rdata, abstract form)
+    nsecs: Vec<(usize, HName, NSEC, NsecRec)>,
+    qnames: Vec<String>,
+    text: String,
+}
+
+fn build_world(specs: &[ZoneSpec]) -> Result<World, String> {
+    let mut zones = vec![];
+    let mut nsecs = vec![];
+    for (i, s) in specs.iter().enumerate() {
+        let built = vzone::build(s, &Signing::Nsec)?;
+        let origin = vzone::hname(&s.origin);
+        for (owner, n) in built.nsecs() {
+            let abs = vzone::ref_nsec(&origin, &owner, &n);
+            nsecs.push((i, owner, n, abs));
+        }
+        let mut r = s.reference();
+        // the signer adds the DNSKEY RRset at the apex
+        r.add(&r.origin.clone(), rz::T_DNSKEY, rz::RData::Other("dnskey".into()));
+        zones.push(ZoneIn { built, rz: r, origin });
+    }
+    let refs = zones.iter().map(|z| z.rz.clone()).collect();
+    let mut qnames = specs[0].query_names(3);
+    for s in &specs[1..] {
+        for q in s.query_names(2) {
+            if !qnames.contains(&q) {
+                qnames.push(q);
+            }
+        }
+    }
+    let text = specs.iter().map(|s| s.to_string()).collect::<Vec<_>>().join(" + ");
+    Ok(World { specs: specs.to_vec(), zones, refs, nsecs, qnames, text })
+}
+
+impl World {
+    fn has_parent(&self, apex: &Name) -> bool {
+        self.refs.iter().any(|z| apex.strictly_below(&z.origin))
+    }
+    fn soa_variants(&self) -> Vec<Option<HName>> {
+        let mut v: Vec<Option<HName>> = self.zones.iter().map(|z| Some(z.origin.clone())).collect();
+        v.push(None);
+        v
+    }
+    fn anchors(&self) -> Arc<hickory_proto::dnssec::TrustAnchors> {
+        let o: Vec<&str> = self.specs.iter().map(|s| s.origin.as_str()).collect();
+        vzone::anchors(&o)
+    }
+    fn zone_of_origin(&self, name: &HName) -> Option<&ZoneIn> {
+        self.zones.iter().find(|z| &z.origin == name)
+    }
+    /// Claims to enumerate for (qname, qtype): NXDOMAIN, NODATA and one wildcard-expansion claim
+    /// per published wildcard RRset whose type is the query type or CNAME.
+    fn claims(&self, qname: &Name, qtype: u16) -> Vec<(usize, Claim)> {
+        let mut v = vec![(0, Claim::NxDomain), (0, Claim::NoData)];
+        for (zi, z) in self.zones.iter().enumerate() {
+            for (owner, types) in &z.rz.nodes {
+                // only names the RRSIG's Labels field can be expanded to: strictly below the
+                // wildcard's parent (anything else cannot pass signature verification, C06)
+                if !owner.is_wildcard() || !qname.strictly_below(&owner.parent()) {
+                    continue;
+                }
+                for t in types.keys() {
+                    if *t == qtype || (*t == rz::T_CNAME && qtype != rz::T_CNAME) {
+                        v.push((zi, Claim::Wildcard { source: owner.clone(), rtype: *t }));
+                    }
+                }
+            }
+        }
+        v
+    }
+    /// The answer section of a wildcard-expansion claim: the genuine RRset and RRSIGs of the
+    /// wildcard with the owner rewritten to the query name (what the real server sends too).
+    fn expanded_answer(&self, zi: usize, claim: &Claim, qname: &HName, mark_secure: bool) -> Vec<Record> {
+        let Claim::Wildcard { source, rtype } = claim else { return vec![] };
+        let w = vzone::hname(&source.to_string());
+        let mut v = self.zones[zi].built.rrset_with_sigs(&w, RecordType::from(*rtype));
+        for r in v.iter_mut() {
+            r.name = qname.clone();
+            r.proof = if mark_secure { Proof::Secure } else { Proof::default() };
+        }
+        v
+    }
+}
+
+fn rcode_of(claim: &Claim) -> ResponseCode {
+    match claim {
+        Claim::NxDomain => ResponseCode::NXDomain,
+        _ => ResponseCode::NoError,
+    }
+}
+
+fn claim_json(c: &Claim) -> Value {
+    match c {
+        Claim::NxDomain => json!({"kind": "NXDOMAIN"}),
+        Claim::NoData => json!({"kind": "NODATA"}),
+        Claim::Wildcard { source, rtype } => json!({"kind": "WILDCARD", "source": source.to_string(), "rtype": rtype}),
+    }
+}
+
+fn claim_from_json(v: &Value) -> Claim {
+    match v["kind"].as_str() {
+        Some("NXDOMAIN") => Claim::NxDomain,
+        Some("WILDCARD") => Claim::Wildcard { source: Name::parse(v["source"].as_str().unwrap_or("*.z.")), rtype: v["rtype"].as_u64().unwrap_or(1) as u16 },
+        _ => Claim::NoData,
+    }
+}
+
+// ------------------------------------------------------------------------------------------
+// scenes
+
+/// Role of one NSEC record relative to the query name (abstract, label-free).
+fn role(r: &NsecRec, qname: &Name) -> String {
+    let deleg = r.types.contains(&rz::T_NS) && !r.types.contains(&rz::T_SOA);
+    let apex = r.types.contains(&rz::T_SOA);
+    let last = r.next == r.zone;
+    let in_zone = qname.at_or_below(&r.zone);
+    let mut s = String::new();
+    if r.owner == *qname {
+        s.push_str("match");
+    } else if r.owner.is_wildcard() && qname.strictly_below(&r.owner.parent()) {
+        s.push_str("wildcard-of-ancestor");
+    } else if qname.strictly_below(&r.owner) {
+        s.push_str(if in_zone && r.owner < *qname && (*qname < r.next || last) { "ancestor-covering" } else { "ancestor" });
+    } else if in_zone && r.owner < *qname && (*qname < r.next || last) {
+        s.push_str("covering");
+    } else if !in_zone {
+        s.push_str("foreign-zone");
+    } else {
+        s.push_str("elsewhere");
+    }
+    if deleg {
+        s.push_str("/delegation");
+    }
+    if apex {
+        s.push_str("/apex");
+    }
+    if r.next.strictly_below(qname) {
+        s.push_str("/next-below-q");
+    }
+    s
+}
+
+fn subset_roles(world: &World, mask: u32, qname: &Name) -> String {
+    let mut roles: Vec<String> = (0..world.nsecs.len()).filter(|i| mask >> i & 1 == 1).map(|i| role(&world.nsecs[i].3, qname)).collect();
+    roles.sort();
+    roles.dedup();
+    roles.join("+")
+}
+
+fn has_interior_star(n: &Name) -> bool {
+    n.0.iter().skip(1).any(|l| l.as_slice() == b"*")
+}
+
+/// The PRIMARY abstract mechanism by which the accepted record set misleads the validator about
+/// (qname, qtype) — the first that applies, in this order:
+///  apex-nsec-for-ds = the NSEC matching the name has the SOA bit (child apex) and the query is for DS,
+///                     which lives in the parent (RFC 4035 3.1.4.1, RFC 6840 4.4);
+///  anc-deleg  = a parent-side delegation NSEC (NS set, SOA clear) at or above the name is used
+///               (RFC 6840 4.1 forbids it for anything but DS at the delegation itself);
+///  ent        = a record covers the name (or the wildcard child of one of its ancestors) while its
+///               next name lies BELOW that name, i.e. the name exists as an empty non-terminal;
+///  foreign    = records / SOA of another zone of the world (parent and child) are combined;
+///  ce-ignored = wildcard expansion although the covering record itself shows a closer encloser
+///               than the wildcard's parent;
+///  nosoa      = no SOA in the response (the validator guesses the closest encloser / cannot
+///               recognise the last NSEC of the chain);
+///  star       = the query name has a `*` label, or a record owner/next has `*` as an interior
+///               label (label arithmetic that discounts `*`);
+///  plain      = none of these.
+fn mechanism(world: &World, recs: &[&NsecRec], qname: &Name, qtype: u16, claim: &Claim, soa: &Option<HName>) -> &'static str {
+    if qtype == rz::T_DS && recs.iter().any(|r| r.owner == *qname && r.types.contains(&rz::T_SOA)) && world.has_parent(qname) {
+        return "apex-nsec-for-ds";
+    }
+    if recs.iter().any(|r| r.is_delegation() && qname.at_or_below(&r.owner)) {
+        return "anc-deleg";
+    }
+    let auth = dn::authoritative_zone(&world.refs, qname, qtype).map(|z| z.origin.clone());
+    let mut targets = vec![qname.clone()];
+    if let Some(a) = &auth {
+        let mut p = qname.clone();
+        while p.strictly_below(a) {
+            p = p.parent();
+            targets.push(p.wildcard_child());
+        }
+    }
+    if recs.iter().any(|r| targets.iter().any(|x| r.covers(x) && r.next.strictly_below(x))) {
+        return "ent";
+    }
+    if world.zones.len() > 1 {
+        let soa_r = soa.as_ref().map(vzone::ref_name);
+        if recs.iter().any(|r| Some(&r.zone) != auth.as_ref()) || (soa_r.is_some() && soa_r != auth) {
+            return "foreign";
+        }
+    }
+    if let Claim::Wildcard { source, .. } = claim {
+        let base = source.parent();
+        if recs.iter().any(|r| r.covers(qname) && r.closest_encloser(qname).strictly_below(&base)) {
+            return "ce-ignored";
+        }
+    }
+    if soa.is_none() {
+        return "nosoa";
+    }
+    if qname.0.iter().any(|l| l.as_slice() == b"*") || recs.iter().any(|r| has_interior_star(&r.owner) || has_interior_star(&r.next)) {
+        return "star";
+    }
+    "plain"
+}
+
+// ------------------------------------------------------------------------------------------
+// end-to-end replay of one decision-level case
+
+fn dnskey_response(z: &ZoneIn, q: &Query) -> Message {
+    let mut m = Message::new(0, MessageType::Response, OpCode::Query);
+    m.add_query(q.clone());
+    m.metadata.authoritative = true;
+    m.add_answers(z.built.rrset_with_sigs(&z.origin, RecordType::DNSKEY));
+    m
+}
+
+fn e2e_case(
+    world: &World,
+    rt: &tokio::runtime::Runtime,
+    query: &Query,
+    soa: &Option<HName>,
+    zi: usize,
+    claim: &Claim,
+    mask: u32,
+) -> E2e {
+    let mut m = Message::new(0, MessageType::Response, OpCode::Query);
+    m.add_query(query.clone());
+    m.metadata.response_code = rcode_of(claim);
+    m.metadata.authoritative = true;
+    m.add_answers(world.expanded_answer(zi, claim, &query.name, false));
+    if let Some(s) = soa {
+        if let Some(z) = world.zone_of_origin(s) {
+            m.add_authorities(z.built.rrset_with_sigs(&z.origin, RecordType::SOA));
+        }
+    }
+    for i in 0..world.nsecs.len() {
+        if mask >> i & 1 == 1 {
+            let (zi, owner, _, _) = &world.nsecs[i];
+            m.add_authorities(world.zones[*zi].built.rrset_with_sigs(owner, RecordType::NSEC));
+        }
+    }
+    let keys: Vec<(HName, Message)> = world
+        .zones
+        .iter()
+        .map(|z| (z.origin.clone(), dnskey_response(z, &Query::new(z.origin.clone(), RecordType::DNSKEY))))
+        .collect();
+    let main = query.clone();
+    let up = Upstream::new(move |q: &Query| {
+        if q.query_type == RecordType::DNSKEY {
+            return keys.iter().find(|(o, _)| *o == q.name).map(|(_, m)| m.clone());
+        }
+        if q.name == main.name && q.query_type == main.query_type {
+            return Some(m.clone());
+        }
+        None
+    });
+    vzone::validate(rt, up, world.anchors(), query.clone(), None)
+}
+
+fn e2e_agrees(hook: Proof, e: &E2e) -> bool {
+    match hook {
+        Proof::Secure => e.is_secure(),
+        Proof::Bogus => matches!(e, E2e::NsecRejected(Proof::Bogus)),
+        Proof::Insecure => matches!(e, E2e::NsecRejected(Proof::Insecure)),
+        Proof::Indeterminate => matches!(e, E2e::NsecRejected(Proof::Indeterminate)),
+    }
+}
+
+// ------------------------------------------------------------------------------------------
+// decision level
+
+struct Counters {
+    bound: AtomicU64,
+}
+
+fn case_json(world: &World, qname: &str, qtype: u16, claim: &Claim, soa: &Option<HName>, mask: u32) -> Value {
+    json!({
+        "level": "decision",
+        "zones": world.specs.iter().map(|s| s.to_json()).collect::<Vec<_>>(),
+        "world": world.text,
+        "qname": qname, "qtype": qtype, "qtype_name": rz::type_name(qtype),
+        "claim": claim_json(claim),
+        "soa": soa.as_ref().map(|n| n.to_string()),
+        "mask": mask,
+        "roles": subset_roles(world, mask, &Name::parse(qname)),
+        "nsecs": (0..world.nsecs.len()).filter(|i| mask >> i & 1 == 1).map(|i| {
+            let r = &world.nsecs[i].3;
+            format!("{} NSEC {} {:?}", r.owner, r.next, r.types.iter().map(|t| rz::type_name(*t)).collect::<Vec<_>>())
+        }).collect::<Vec<_>>(),
+    })
+}
+
+/// Run all (soa, subset) cases of one (qname, qtype, claim). `only` restricts to one (soa, mask).
+#[allow(clippy::too_many_arguments)]
+fn run_claim(
+    world: &World,
+    qname_s: &str,
+    qtype: u16,
+    zi: usize,
+    claim: &Claim,
+    only: Option<(Option<HName>, u32)>,
+    rt: &tokio::runtime::Runtime,
+    l: &mut Local,
+    cnt: &Counters,
+) {
+    let qname = Name::parse(qname_s);
+    let hq = vzone::hname(qname_s);
+    let query = Query::new(hq.clone(), RecordType::from(qtype));
+    let tr = dn::truth(&world.refs, &qname, qtype, claim);
+    let answers = world.expanded_answer(zi, claim, &hq, true);
+    let rcode = rcode_of(claim);
+    let n = world.nsecs.len();
+    let has_parent = |a: &Name| world.has_parent(a);
+    let case_id = format!("{}|{qname_s}|{qtype}|{claim:?}", world.text);
+    let mut dup_owner_masks: Vec<u32> = vec![];
+    for i in 0..n {
+        for j in i + 1..n {
+            if world.nsecs[i].1 == world.nsecs[j].1 {
+                dup_owner_masks.push(1 << i | 1 << j);
+            }
+        }
+    }
+    for soa in world.soa_variants() {
+        if let Some((s, _)) = &only {
+            if *s != soa {
+                continue;
+            }
+        }
+        let mut secure_masks: Vec<u32> = vec![];
+        for mask in 1u32..(1 << n) {
+            if let Some((_, m)) = &only {
+                if *m != mask {
+                    continue;
+                }
+            }
+            // two NSECs with the same owner (parent side and child apex of a delegation) would form
+            // ONE RRset in a message, which cannot pass signature verification (C06): such a mixture
+            // never reaches the decision procedure
+            if dup_owner_masks.iter().any(|d| mask & d == *d) {
+                continue;
+            }
+            let sub: Vec<(&HName, &NSEC)> = (0..n).filter(|i| mask >> i & 1 == 1).map(|i| (&world.nsecs[i].1, &world.nsecs[i].2)).collect();
+            let abs: Vec<&NsecRec> = (0..n).filter(|i| mask >> i & 1 == 1).map(|i| &world.nsecs[i].3).collect();
+            l.eval();
+            let verdict = match vcore::catch(|| verify_nsec(&query, soa.as_ref(), rcode, &answers, &sub)) {
+                Ok(v) => v,
+                Err(p) => {
+                    l.violation(&format!("panic:{}", vcore::short_loc(&p.loc)), &p.msg, || case_json(world, qname_s, qtype, claim, &soa, mask));
+                    continue;
+                }
+            };
+            let proves = dn::nsec_proves(&abs, &qname, qtype, claim, &has_parent);
+            if proves && tr.is_err() {
+                // the two reference layers disagree: a bug in vref::denial, not a verdict
+                eprintln!(
+                    "REFERENCE-INCONSISTENT: nsec_proves accepts a claim that is false ({}) in {}: {}",
+                    tr.unwrap_err(),
+                    world.text,
+                    case_json(world, qname_s, qtype, claim, &soa, mask)
+                );
+                l.outcome("reference-inconsistent");
+                continue;
+            }
+            let secure = verdict == Proof::Secure;
+            l.outcome(&format!("verdict:{}:{}:{}", claim.tag(), format!("{verdict:?}").to_lowercase(), if tr.is_ok() { "true-claim" } else { "false-claim" }));
+            if tr.is_err() || (proves && mask.count_ones() >= 2) {
+                l.nontrivial(fnv_str(&format!("{case_id}|{soa:?}|{mask}")));
+            }
+            if proves && !secure && soa.is_some() {
+                l.outcome(&format!("obs:valid-proof-not-accepted:{}", claim.tag()));
+            }
+            // binding slice: a deterministic 1/64 of all cases
+            let slice = fnv_str(&format!("{case_id}|{soa:?}|{mask}")) % BIND_SLICE == 0;
+            let mut bad_key: Option<(String, String)> = None;
+            if secure {
+                let minimal = !secure_masks.iter().any(|m| m & mask == *m);
+                secure_masks.push(mask);
+                if let Err(why) = &tr {
+                    if minimal {
+                        bad_key = Some((
+                            format!("unsound:{}:{why}:{}", claim.tag(), mechanism(world, &abs, &qname, qtype, claim, &soa)),
+                            format!("{} for {qname_s} {} accepted as Secure but the claim is false in the zone ({why})", claim.tag(), rz::type_name(qtype)),
+                        ));
+                    } else {
+                        l.outcome("unsound:superset-of-minimal");
+                    }
+                } else if !proves {
+                    if minimal {
+                        bad_key = Some((
+                            format!("unentailed:{}:{}", claim.tag(), mechanism(world, &abs, &qname, qtype, claim, &soa)),
+                            format!(
+                                "{} for {qname_s} {} accepted as Secure; the claim happens to be true but these NSECs do not prove it",
+                                claim.tag(),
+                                rz::type_name(qtype)
+                            ),
+                        ));
+                    } else {
+                        l.outcome("unentailed:superset-of-minimal");
+                    }
+                }
+            }
+            if bad_key.is_some() || slice || only.is_some() {
+                let e = e2e_case(world, rt, &query, &soa, zi, claim, mask);
+                cnt.bound.fetch_add(1, Ordering::Relaxed);
+                if !e2e_agrees(verdict, &e) {
+                    l.violation(
+                        &format!("binding:hook={}:e2e={}", format!("{verdict:?}").to_lowercase(), e.class()),
+                        "the decision-level verdict and the verdict of the real DnssecDnsHandle on the same records differ",
+                        || case_json(world, qname_s, qtype, claim, &soa, mask),
+                    );
+                } else {
+                    l.outcome(&format!("bound:{}", e.class()));
+                }
+            }
+            if let Some((key, what)) = bad_key {
+                l.violation(&key, &what, || case_json(world, qname_s, qtype, claim, &soa, mask));
+            }
+        }
+    }
+}
+
+// ------------------------------------------------------------------------------------------
+// the chain the real signer produced vs RFC 4035 2.3
+
+fn check_chain(world: &World, l: &mut Local) {
+    for (zi, z) in world.zones.iter().enumerate() {
+        let want = dn::nsec_chain(&z.rz);
+        let mut got: Vec<&NsecRec> = world.nsecs.iter().filter(|n| n.0 == zi).map(|n| &n.3).collect();
+        got.sort_by(|a, b| a.owner.cmp(&b.owner));
+        let same = want.len() == got.len() && want.iter().zip(got.iter()).all(|(w, g)| w == *g);
+        if same {
+            l.outcome("chain:as-rfc4035");
+            continue;
+        }
+        let wo: BTreeSet<&Name> = want.iter().map(|r| &r.owner).collect();
+        let go: BTreeSet<&Name> = got.iter().map(|r| &r.owner).collect();
+        let key = if wo != go {
+            let missing = wo.difference(&go).count();
+            let extra = go.difference(&wo).count();
+            format!("chain:owners-differ:missing={}:extra={}", missing.min(1), extra.min(1))
+        } else if want.iter().zip(got.iter()).any(|(w, g)| w.next != g.next) {
+            "chain:order-differs".to_string()
+        } else {
+            let mut kinds = BTreeSet::new();
+            for (w, g) in want.iter().zip(got.iter()) {
+                for t in w.types.symmetric_difference(&g.types) {
+                    kinds.insert(format!("{}{}", if w.types.contains(t) { "-" } else { "+" }, rz::type_name(*t)));
+                }
+            }
+            format!("chain:bitmap-differs:{}", kinds.into_iter().collect::<Vec<_>>().join(","))
+        };
+        l.violation(&key, "the NSEC chain produced by the real signer differs from RFC 4035 2.3", || {
+            json!({"level": "chain", "zones": world.specs.iter().map(|s| s.to_json()).collect::<Vec<_>>(), "zone": zi,
+                   "expected": want.iter().map(|r| format!("{} -> {} {:?}", r.owner, r.next, r.types)).collect::<Vec<_>>(),
+                   "got": got.iter().map(|r| format!("{} -> {} {:?}", r.owner, r.next, r.types)).collect::<Vec<_>>()})
+        });
+    }
+}
+
+// ------------------------------------------------------------------------------------------
+// completeness: the server's own proofs through the real validator
+
+fn ref_class(res_step: &Step, qname: &Name) -> Option<String> {
+    match res_step {
+        Step::NxDomain { .. } => Some("NXDOMAIN".into()),
+        Step::NoData(NoDataKind::OtherData) => Some("NODATA-other".into()),
+        Step::NoData(NoDataKind::Ent) => Some("NODATA-ent".into()),
+        Step::NoData(NoDataKind::Wildcard { .. }) => Some("NODATA-wild".into()),
+        Step::NoData(NoDataKind::WildcardEnt { .. }) => Some("NODATA-wildent".into()),
+        Step::Data { source, .. } if source != qname => Some("WILDCARD".into()),
+        Step::Cname { source, .. } if source != qname => Some("WILDCARD-CNAME".into()),
+        _ => None,
+    }
+}
+
+fn completeness(world: &World, zi: usize, rt: &tokio::runtime::Runtime, l: &mut Local, only: Option<(&str, u16)>) {
+    let z = &world.zones[zi];
+    let zone = &z.rz;
+    // all server responses of this zone first (the validator may ask for any of them)
+    let mut table: HashMap<(HName, RecordType), Message> = HashMap::new();
+    let mut todo: Vec<(String, u16, String)> = vec![];
+    for qn in &world.qnames {
+        let name = Name::parse(qn);
+        if !name.at_or_below(&zone.origin) || dn::authoritative_zone(&world.refs, &name, rz::T_A).map(|a| a.origin != zone.origin).unwrap_or(true) {
+            continue;
+        }
+        for t in QTYPES {
+            if let Some((oq, ot)) = only {
+                if oq != qn || ot != t {
+                    continue;
+                }
+            }
+            let Ok(m) = vzone::ask(rt, &z.built.catalog, qn, t, true) else {
+                l.violation("completeness:no-response", "the server gave no single decodable response", || json!({"level": "completeness", "zones": world.specs.iter().map(|s| s.to_json()).collect::<Vec<_>>(), "zone": zi, "qname": qn, "qtype": t}));
+                continue;
+            };
+            let s = rz::step(zone, &name, t);
+            if let Some(class) = ref_class(&s, &name) {
+                // only where the server's answer has the shape the reference expects (C10 judges the rest)
+                let rcode_ok = match &s {
+                    Step::NxDomain { .. } => m.metadata.response_code == ResponseCode::NXDomain && m.answers.is_empty(),
+                    Step::NoData(_) => m.metadata.response_code == ResponseCode::NoError && m.answers.is_empty(),
+                    Step::Data { rdata, .. } => {
+                        m.metadata.response_code == ResponseCode::NoError && {
+                            let got: BTreeSet<rz::RData> = m.answers.iter().filter(|r| u16::from(r.record_type()) == t).map(|r| vzone::ref_rr(r).rdata).collect();
+                            got == *rdata
+                        }
+                    }
+                    Step::Cname { target, .. } => {
+                        m.metadata.response_code == ResponseCode::NoError
+                            && m.answers.iter().any(|r| r.name == vzone::hname(qn) && vzone::ref_rr(r).rdata == rz::RData::Cname(target.clone()))
+                    }
+                    _ => false,
+                };
+                if rcode_ok {
+                    todo.push((qn.clone(), t, class));
+                } else {
+                    l.outcome("completeness:skipped-c10-deviation");
+                }
+            }
+            table.insert((vzone::hname(qn), RecordType::from(t)), m);
+        }
+    }
+    let dnskey = dnskey_response(z, &Query::new(z.origin.clone(), RecordType::DNSKEY));
+    let origin = z.origin.clone();
+    let table = Arc::new(table);
+    let t2 = table.clone();
+    let up = Upstream::new(move |q: &Query| {
+        if q.query_type == RecordType::DNSKEY && q.name == origin {
+            return Some(dnskey.clone());
+        }
+        t2.get(&(q.name.clone(), q.query_type)).cloned()
+    });
+    let handle = vzone::validator(up, world.anchors(), None);
+    for (qn, t, class) in todo {
+        l.eval();
+        let e = vzone::validate_with(rt, &handle, Query::new(vzone::hname(&qn), RecordType::from(t)));
+        if e.is_secure() {
+            l.outcome(&format!("complete:{class}"));
+            l.nontrivial(fnv_str(&format!("complete|{}|{qn}|{t}", world.text)));
+            continue;
+        }
+        // scene: is the proof the server attached the proof RFC 4035 5.4 requires (then the
+        // validator rejects a valid proof) or not (then the server's proof is insufficient)?
+        let m = &table[&(vzone::hname(&qn), RecordType::from(t))];
+        let name = Name::parse(&qn);
+        let attached: Vec<NsecRec> = m
+            .authorities
+            .iter()
+            .filter_map(|r| match &r.data {
+                hickory_proto::rr::RData::DNSSEC(hickory_proto::dnssec::rdata::DNSSECRData::NSEC(n)) => Some(vzone::ref_nsec(&z.origin, &r.name, n)),
+                _ => None,
+            })
+            .collect();
+        let attached_refs: Vec<&NsecRec> = attached.iter().collect();
+        let has_soa = m.authorities.iter().any(|r| r.record_type() == RecordType::SOA);
+        let claim = match rz::step(zone, &name, t) {
+            Step::NxDomain { .. } => Claim::NxDomain,
+            Step::NoData(_) => Claim::NoData,
+            Step::Data { source, rtype, .. } => Claim::Wildcard { source, rtype },
+            Step::Cname { source, .. } => Claim::Wildcard { source, rtype: rz::T_CNAME },
+            _ => Claim::NoData,
+        };
+        let valid = dn::nsec_proves(&attached_refs, &name, t, &claim, &|a: &Name| world.has_parent(a));
+        let wraps = attached.iter().any(|r| r.next == r.zone && r.covers(&name));
+        let star = name.0.iter().any(|l| l.as_slice() == b"*") || attached.iter().any(|r| has_interior_star(&r.owner) || has_interior_star(&r.next));
+        // one primary scene flag
+        let flag = if !valid {
+            ""
+        } else if let Claim::Wildcard { source, .. } = &claim {
+            if name.parent() == source.parent() {
+                // expansion to a name directly below the wildcard's parent
+                ":one-label-expansion"
+            } else if wraps {
+                ":last-nsec-covers"
+            } else if star {
+                ":star"
+            } else {
+                ":plain"
+            }
+        } else if star {
+            ":star"
+        } else if wraps && !has_soa {
+            ":last-nsec-covers"
+        } else {
+            ":plain"
+        };
+        let key = format!(
+            "incomplete:{class}:{}:{}{flag}",
+            e.class(),
+            if valid { "validator-rejects-valid-proof" } else { "server-proof-insufficient" },
+        );
+        let first = !l.has_violation_key(&key);
+        l.violation(&key, &format!("the server's own DO=1 answer for {qn} {} ({class}) is not accepted as Secure by the validator: {}", rz::type_name(t), e.class()), || {
+            let _ = first;
+            json!({"level": "completeness", "zones": world.specs.iter().map(|s| s.to_json()).collect::<Vec<_>>(), "world": world.text, "zone": zi,
+                   "qname": qn, "qtype": t, "qtype_name": rz::type_name(t), "roles": attached.iter().map(|r| role(r, &name)).collect::<Vec<_>>(),
+                   "authority": m.authorities.iter().filter(|r| r.record_type() != RecordType::RRSIG).map(|r| format!("{} {} {}", r.name, r.record_type(), r.data)).collect::<Vec<_>>()})
+        });
+    }
+}
+
+// ------------------------------------------------------------------------------------------
+// families
+
+fn pair_worlds() -> Vec<Vec<ZoneSpec>> {
+    let mut out = vec![];
+    let child_names = vzone::universe_under("a.z.", 1);
+    let children = vzone::family("a.z.", &child_names, 2, &[Kind::A, Kind::Txt]);
+    for deleg in [Kind::NsDs, Kind::Ns] {
+        for extra in [None, Some(("b.z.", Kind::A)), Some(("*.z.", Kind::Txt))] {
+            let mut owners = vec![("a.z.", deleg)];
+            if let Some(e) = extra {
+                owners.push(e);
+            }
+            let parent = ZoneSpec::new("z.", &owners);
+            for c in &children {
+                out.push(vec![parent.clone(), c.clone()]);
+            }
+        }
+    }
+    out
+}
+
+fn run_world(world: &World, rt: &tokio::runtime::Runtime, l: &mut Local, cnt: &Counters, sample: bool) {
+    if world.nsecs.len() > 7 {
+        l.outcome("skipped:more-than-7-nsecs");
+        return;
+    }
+    check_chain(world, l);
+    for qn in &world.qnames {
+        for t in QTYPES {
+            for (zi, claim) in world.claims(&Name::parse(qn), t) {
+                run_claim(world, qn, t, zi, &claim, None, rt, l, cnt);
+            }
+        }
+    }
+    for zi in 0..world.zones.len() {
+        completeness(world, zi, rt, l, None);
+    }
+    if sample {
+        l.sample(json!({"world": world.text, "nsecs": world.nsecs.iter().map(|n| format!("{} -> {}", n.3.owner, n.3.next)).collect::<Vec<_>>(), "qnames": world.qnames.len()}));
+    }
+}
+
+fn main() {
+    let ctx = Ctx::from_args("C08", "exploration");
+    let thorough = !ctx.quick();
+
+    let mut bad = rz::self_test();
+    bad.extend(dn::self_test());
+    if !bad.is_empty() {
+        for b in &bad {
+            eprintln!("reference self-test failed: {b}");
+        }
+        vcore::machinery_exit("vref::zone / vref::denial self-test against the RFC examples failed");
+    }
+    let cnt = Counters { bound: AtomicU64::new(0) };
+
+    if let Some((_key, case)) = ctx.replay_case() {
+        let specs: Vec<ZoneSpec> = case["zones"].as_array().map(|a| a.iter().filter_map(ZoneSpec::from_json).collect()).unwrap_or_default();
+        if specs.is_empty() {
+            vcore::machinery_exit("replay without zones");
+        }
+        let rt = vsim::rt();
+        let world = build_world(&specs).unwrap_or_else(|e| vcore::machinery_exit(&e));
+        ctx.with_local(|l| match case["level"].as_str() {
+            Some("chain") => check_chain(&world, l),
+            Some("completeness") => {
+                let q = case["qname"].as_str().unwrap_or("z.").to_string();
+                completeness(&world, case["zone"].as_u64().unwrap_or(0) as usize, &rt, l, Some((&q, case["qtype"].as_u64().unwrap_or(1) as u16)));
+            }
+            _ => {
+                let claim = claim_from_json(&case["claim"]);
+                let qtype = case["qtype"].as_u64().unwrap_or(1) as u16;
+                let soa = case["soa"].as_str().map(vzone::hname);
+                let zi = world.claims(&Name::parse(case["qname"].as_str().unwrap_or("z.")), qtype).into_iter().find(|(_, c)| *c == claim).map(|(z, _)| z).unwrap_or(0);
+                run_claim(&world, case["qname"].as_str().unwrap_or("z."), qtype, zi, &claim, Some((soa, case["mask"].as_u64().unwrap_or(1) as u32)), &rt, l, &cnt);
+            }
+        });
+        ctx.finish(false);
+    }
+
+    ctx.set_rule(
+        "every NSEC-signed zone of the universe (apex + <=K owners of U(d), labels {a,b,*}; kinds A, TXT, A+TXT, CNAME->{a.z.,a.a.z.}, NS, NS+glue, NS+DS; \
+         quick d=2,K<=2; thorough adds d=2,K=3 and d=3,K<=2 over 6 kinds) and 114 parent/child worlds (z. + child a.z.), chains produced by the real signer; \
+         x every qname of {apex, U(3), x.o., names below cuts} x qtype {A,TXT,DS,NS,CNAME} x claim {NXDOMAIN, NODATA, expansion of each published wildcard RRset} \
+         x soa_name {each apex, absent} x EVERY non-empty subset of the world's NSEC records -> verify_nsec; oracle: Secure => claim true in the zone \
+         (vref::denial::truth) and proven by the subset (nsec_proves). Completeness: every negative/wildcard DO=1 answer of the real server through the real \
+         DnssecDnsHandle. Non-trivial = distinct cases with a false claim, or a true claim whose accepted proof has >= 2 records, plus each completeness case.",
+    );
+    ctx.assume("vref::zone + vref::denial (self-tested on every run against RFC 4592 2.2.1/3.3.1, RFC 4034 6.1, RFC 4035 app. A/B, RFC 5155 app. A/B)");
+    ctx.assume("the attacker only has genuine signed records of the zone(s) (forged signatures are C06's business); Ed25519 via ring");
+    ctx.assume("completeness is judged only where the server's answer has the shape the reference lookup expects (C10 owns the other cases)");
+
+    let kinds8 = [Kind::A, Kind::Txt, Kind::ATxt, Kind::CnameA, Kind::CnameAA, Kind::Ns, Kind::NsGlue, Kind::NsDs];
+    let kinds6 = [Kind::A, Kind::ATxt, Kind::CnameA, Kind::Ns, Kind::NsGlue, Kind::NsDs];
+    let mut worlds: Vec<Vec<ZoneSpec>> = vzone::family("z.", &vzone::universe(2), 2, &kinds8).into_iter().map(|s| vec![s]).collect();
+    if thorough {
+        worlds.extend(vzone::family("z.", &vzone::universe(2), 3, &kinds6).into_iter().filter(|s| s.owners.len() == 3).map(|s| vec![s]));
+        worlds.extend(
+            vzone::family("z.", &vzone::universe(3), 2, &kinds6)
+                .into_iter()
+                .filter(|s| s.owners.iter().any(|(o, _)| o.matches('.').count() == 4))
+                .map(|s| vec![s]),
+        );
+    }
+    let single = worlds.len();
+    worlds.extend(pair_worlds());
+    ctx.set("worlds_single_zone", json!(single));
+    ctx.set("worlds_parent_child", json!(worlds.len() - single));
+
+    let n = worlds.len() as u64;
+    let stride = (n / 10).max(1);
+    ctx.par_run_init(
+        n,
+        2,
+        |_| vsim::rt(),
+        |i, l, rt| match build_world(&worlds[i as usize]) {
+            Ok(w) => run_world(&w, rt, l, &cnt, i % stride == 0 || i == n - 1),
+            Err(e) => l.violation("zone-build-failed", &e, || json!({"zones": worlds[i as usize].iter().map(|s| s.to_json()).collect::<Vec<_>>()})),
+        },
+    );
+
+    ctx.set("traces_validated_against_impl", json!(cnt.bound.load(Ordering::Relaxed)));
+    if ctx.outcome_count("reference-inconsistent") > 0 {
+        ctx.machinery_failure("vref::denial is inconsistent: nsec_proves accepted a claim that truth() calls false (see stderr)");
+    }
+    let mut need: BTreeMap<&str, &str> = BTreeMap::new();
+    need.insert("verdict:NXDOMAIN:secure:true-claim", "no true NXDOMAIN was ever accepted");
+    need.insert("verdict:NODATA:secure:true-claim", "no true NODATA was ever accepted");
+    need.insert("verdict:WILDCARD:secure:true-claim", "no true wildcard expansion was ever accepted");
+    need.insert("verdict:NXDOMAIN:bogus:false-claim", "no false NXDOMAIN was ever rejected");
+    need.insert("verdict:NODATA:bogus:false-claim", "no false NODATA was ever rejected");
+    need.insert("verdict:WILDCARD:bogus:false-claim", "no false wildcard expansion was ever rejected");
+    need.insert("complete:NXDOMAIN", "no server NXDOMAIN proof was accepted end to end");
+    need.insert("complete:NODATA-other", "no server NODATA proof was accepted end to end");
+    need.insert("bound:secure", "no Secure decision was replayed end to end");
+    need.insert("chain:as-rfc4035", "no chain matched the reference chain");
+    for (class, why) in need {
+        if ctx.outcome_count(class) == 0 {
+            ctx.machinery_failure(&format!("vacuous run: {why} ({class})"));
+        }
+    }
+    ctx.finish(true);
+}
